@@ -2,3 +2,4 @@ import LLRP.Props.C01
 import LLRP.Props.C02
 import LLRP.Props.C11
 import LLRP.Props.C19
+import LLRP.Props.C18
